@@ -1,6 +1,7 @@
 import os
 import time
 import socket
+import threading
 from resource import getrusage, RUSAGE_SELF
 
 from twisted.application.service import Service
@@ -10,6 +11,9 @@ from carbon.conf import settings
 
 stats = {}
 prior_stats = {}
+# The writer thread counts into `stats` while the reactor thread's
+# recordMetrics() takes the counters away: both sides hold this lock.
+stats_lock = threading.Lock()
 HOSTNAME = socket.gethostname().replace('.', '_')
 PAGESIZE = os.sysconf('SC_PAGESIZE')
 rusage = getrusage(RUSAGE_SELF)
@@ -25,25 +29,28 @@ lastUsageTime = time.time()
 
 
 def increment(stat, increase=1):
-  try:
-    stats[stat] += increase
-  except KeyError:
-    stats[stat] = increase
+  with stats_lock:
+    try:
+      stats[stat] += increase
+    except KeyError:
+      stats[stat] = increase
 
 
 def max(stat, newval):
-  try:
-    if stats[stat] < newval:
+  with stats_lock:
+    try:
+      if stats[stat] < newval:
+        stats[stat] = newval
+    except KeyError:
       stats[stat] = newval
-  except KeyError:
-    stats[stat] = newval
 
 
 def append(stat, value):
-  try:
-    stats[stat].append(value)
-  except KeyError:
-    stats[stat] = [value]
+  with stats_lock:
+    try:
+      stats[stat].append(value)
+    except KeyError:
+      stats[stat] = [value]
 
 
 def getCpuUsage():
@@ -76,9 +83,12 @@ def getMemUsage():
 def recordMetrics():
   global lastUsage
   global prior_stats
-  myStats = stats.copy()
+  # take the counters and reset them in one step: an increment landing between
+  # the copy and the clear would be neither reported now nor kept for later
+  with stats_lock:
+    myStats = stats.copy()
+    stats.clear()
   myPriorStats = {}
-  stats.clear()
 
   # cache metrics
   if 'cache' in settings.program:
